@@ -13,7 +13,7 @@ from ..runner import Part
 PROPERTY = "C05"
 LEVEL = "fault_enumeration"
 RULE = ("histories: every sequence (length <= 3 quick / 4 thorough) of request outcomes {success, success after k "
-        "drops, slow in-time success, retries exhausted, a lone fragment on every attempt, rejected after j drops, send error, receive error, late corrupted answer then "
+        "drops, slow in-time success, two-piece success, retries exhausted, a lone fragment on every attempt, rejected after j drops, send error, receive error, late corrupted answer then "
         "slow success / silence} with 0.4 T gaps between some requests, followed by a silent request, "
         "x {udp-rtu, tcp} x keep-alive x (T, R) grid, with and without a new event loop between requests; plus the entry "
         "points connect/discover/search_inverters over a (timeout, retries) grid for each family; distinct = distinct "
@@ -23,7 +23,7 @@ ASSUMPTIONS = [
     "virtual clock; AF_UNIX socketpairs as in C04",
     "a 'probe' of an entry point is a maximal run of identical frames with no delivery in between",
 ]
-MUST = ["lone_fragment_every_attempt", "slow_answer_in_time", "full_timeout_after_corrupt_answer", "final_silent_exact", "prefix_success_after_drops", "prefix_exhausted", "prefix_rejected", "prefix_send_error",
+MUST = ["two_piece_answer_in_time", "lone_fragment_every_attempt", "slow_answer_in_time", "full_timeout_after_corrupt_answer", "final_silent_exact", "prefix_success_after_drops", "prefix_exhausted", "prefix_rejected", "prefix_send_error",
         "prefix_recv_error", "loop_change", "connect_probe", "discover_probe", "search_probe", "detected_family_probe",
         "connected_then_silent"]
 EXHAUSTIVE = {"quick": True, "thorough": True}
@@ -32,7 +32,7 @@ EPS = 1e-6
 
 
 def classes(R):
-    cs = ["ok0", "okslow", "exh", "fragexh", "senderr", "recverr", "badlate_ok", "badlate_exh"]
+    cs = ["ok0", "okslow", "okfrag", "exh", "fragexh", "senderr", "recverr", "badlate_ok", "badlate_exh"]
     cs += [f"ok{k}" for k in range(1, R + 1)]
     cs += [f"rej{j}" for j in range(0, R + 1)]
     return cs
@@ -43,6 +43,8 @@ def script_for(cls, R):
         return ["now"]
     if cls == "okslow":            # answered 0.6 T after the transmission: in time, one transmission
         return [["delay", "0.6T"]]
+    if cls == "okfrag":            # answered at once in two pieces, the second 0.3 T after the first: one transmission
+        return [["frag2", None, "0.3T"]]
     if cls.startswith("ok"):
         return ["drop"] * int(cls[2:]) + ["now"]
     if cls == "exh":
@@ -68,7 +70,8 @@ def scenario(transport, ka, T, R, prefix, newloop):
     groups = []
     for i, cls in enumerate(prefix):
         reg = 100 + i
-        by_reg[reg] = [(["delay", 0.8 * T] if x == ["delay", "0.8T"] else (["delay", 0.6 * T] if x == ["delay", "0.6T"] else x))
+        by_reg[reg] = [(["delay", 0.8 * T] if x == ["delay", "0.8T"] else (["delay", 0.6 * T] if x == ["delay", "0.6T"] else
+                        (["frag2", 5 if framing == "rtu" else 9, 0.3 * T] if x == ["frag2", None, "0.3T"] else x)))
                        for x in script_for(cls, R)]
         steps = []
         if cls == "senderr":
@@ -112,6 +115,13 @@ def check_history(sc, run, part: Part):
                             f"{ctx}: ended {rec['outcome']} at +{round(rec['t1'] - rec['t0'], 6)}, expected failure at +{(R + 1) * T}"))
             else:
                 part.count({"final": "final_silent_exact", "exh": "prefix_exhausted"}.get(cls, "lone_fragment_every_attempt"))
+        elif cls == "okfrag":
+            if rec["outcome"] != "ok" or len(txt) != 1 or abs(rec["t1"] - (rec["t0"] + 0.3 * T)) > EPS:
+                out.append((f"C05/{tr}/timeout-cut-short",
+                            f"{ctx}: answer in two pieces (second 0.3 T after the first): outcome {rec['outcome']} at +{round(rec['t1'] - rec['t0'], 6)} "
+                            f"with transmissions at {[round(t - rec['t0'], 6) for t in txt]}"))
+            else:
+                part.count("two_piece_answer_in_time")
         elif cls == "okslow":
             if rec["outcome"] != "ok" or len(txt) != 1 or abs(rec["t1"] - (rec["t0"] + 0.6 * T)) > EPS:
                 out.append((f"C05/{tr}/timeout-cut-short",
